@@ -882,6 +882,13 @@ class Engine:
             o = self.deref_val(args[0])
             if isinstance(o, EnumV):
                 return BoolV(disc_eq(o, 0 if m.group(3) == 'is_ok' else 1))
+        if re.match(r'^(std::result::)?Result::<(.*)>::(unwrap|expect)$', c) and isinstance(args[0], EnumV):
+            o = args[0]
+            okc = disc_eq(o, 0)
+            if not self.feasible(st.pc + [okc]): raise PathEnd('panic: unwrap on Err')
+            if self.feasible(st.pc + [z3.Not(okc)]): st.events.append(('may_panic', 'unwrap on Err', z3.And(st.pc + [z3.Not(okc)])))
+            st.pc.append(okc)
+            return o.payload[0][0]
         # ---- iterator models over fixed arrays / short lists, closures executed from their own MIR
         mm = re.match(r'^core::slice::<impl \[.*\]>::(iter|iter_mut)$', c)
         if mm:
